@@ -196,9 +196,9 @@ def r_mink(idx, rep, rule="R-MINK", modules=None, floor=9):
               "minkowski.support_function must pass (support of collider1, support of collider2) in that order")
 
 
-def r_par(idx, rep, rule="R-PAR"):
+def r_par(idx, rep, rule="R-PAR", floor=10):
     rep.rule(rule, "parallel arrays are stored row-wise together from corresponding sources: (Y,P,Q)[n] = (p-q, p, q); "
-                   "(v,v1,v2)[k] = one support triple; Simplex.add_point likewise", floor=10)
+                   "(v,v1,v2)[k] = one support triple; Simplex.add_point likewise", floor=floor)
     # --- Jolt: _distance_loop
     J = "distance3d.gjk._gjk_jolt"
     f = idx.func(J + "::_distance_loop")
